@@ -16,6 +16,7 @@ import (
 	"sort"
 	"strconv"
 	"strings"
+	"sync"
 	"testing"
 	"testing/synctest"
 	"time"
@@ -50,7 +51,15 @@ func newResult() *Result {
 	return &Result{Faults: map[string]int{}, Probes: map[string]int{}, Pairs: map[string]int{}, Evals: 1}
 }
 
+var resMu sync.Mutex
+
+// fault / probe: counters that tasks bump while the world runs (several tasks at once in race mode)
+func (r *Result) fault(k string) { resMu.Lock(); r.Faults[k]++; resMu.Unlock() }
+func (r *Result) probe(k string) { resMu.Lock(); r.Probes[k]++; resMu.Unlock() }
+
 func (r *Result) violate(rule, subject, format string, a ...any) {
+	resMu.Lock()
+	defer resMu.Unlock()
 	if len(r.Violations) >= 8 {
 		return
 	}
@@ -109,27 +118,31 @@ func newRunDir() string {
 // bubble runs fn inside a synctest bubble and converts a bubble deadlock or a
 // harness panic into res.Infra.
 func bubble(t *testing.T, res *Result, fn func()) {
-	defer func() {
-		if r := recover(); r != nil {
-			res.Infra = fmt.Sprintf("bubble: %v", r)
-			if os.Getenv("VERIF_DEBUG") != "" {
-				buf := make([]byte, 1<<20)
-				n := runtime.Stack(buf, true)
-				fmt.Fprintf(os.Stderr, "%s\n", buf[:n])
-			}
-		}
-	}()
-	synctest.Test(t, func(t *testing.T) {
+	// the extra t.Run level keeps a failing bubble (the race detector fails the test it reports
+	// in) from ending TestSim itself
+	t.Run("w", func(t *testing.T) {
 		defer func() {
 			if r := recover(); r != nil {
-				res.Infra = fmt.Sprintf("harness panic: %v\n%s", r, debug.Stack())
-				if s := zzsim.Active(); s != nil {
-					s.Drain(func(string) bool { return true })
-					s.Detach()
+				res.Infra = fmt.Sprintf("bubble: %v", r)
+				if os.Getenv("VERIF_DEBUG") != "" {
+					buf := make([]byte, 1<<20)
+					n := runtime.Stack(buf, true)
+					fmt.Fprintf(os.Stderr, "%s\n", buf[:n])
 				}
 			}
 		}()
-		fn()
+		synctest.Test(t, func(t *testing.T) {
+			defer func() {
+				if r := recover(); r != nil {
+					res.Infra = fmt.Sprintf("harness panic: %v\n%s", r, debug.Stack())
+					if s := zzsim.Active(); s != nil {
+						s.Drain(func(string) bool { return true })
+						s.Detach()
+					}
+				}
+			}()
+			fn()
+		})
 	})
 }
 
@@ -151,12 +164,39 @@ func finishSched(res *Result, s *zzsim.Sched, end string) {
 	}
 }
 
+// raceOverlap > 1 switches every world to overlap-window scheduling (C15).
+var raceOverlap = int(envInt("VERIF_OVERLAP", 0))
+
+func racePol(pol zzsim.Policy) zzsim.Policy {
+	if raceOverlap > 1 {
+		pol.Overlap = raceOverlap
+		pol.Kind = "uniform"
+	}
+	return pol
+}
+
 func planSeedRng(seed uint64) *rand.Rand { return rand.New(rand.NewPCG(seed, 1)) }
 
 func runScenario(t *testing.T, sc *Scenario, plan any, ctl Ctl) *Result {
 	cwd, _ := os.Getwd()
 	defer os.Chdir(cwd)
-	return sc.Run(t, plan, ctl)
+	if raceOverlap > 1 {
+		collectRaceReports() // discard anything written between runs
+	}
+	res := sc.Run(t, plan, ctl)
+	if raceOverlap > 1 {
+		// functional oracles are off in race mode: outcomes inside a window are not replayable
+		res.Violations = nil
+		for _, rr := range collectRaceReports() {
+			if rr.Harness {
+				res.Infra = "race report without a reservoir frame (harness race): " + rr.Excerpt
+				continue
+			}
+			res.violate("C15.a", rr.Pair, "%s", rr.Excerpt)
+		}
+		res.Nontrivial = true
+	}
+	return res
 }
 
 // ---------------------------------------------------------------------------
